@@ -106,22 +106,22 @@ def fireIf (c : Bool) (hyp : Bool) (extra : String := "") : String :=
 def handle1 (args : List String) : String :=
   match args with
   | "clipclip" :: a =>
-    let p : Order.ClipClip Int := { a := parseBound (getS a "a"), b := parseBound (getS a "b"), c := parseBound (getS a "c"), d := parseBound (getS a "d"), dtype1 := getS a "dt1" != "0", dtype2 := getS a "dt2" != "0" }
-    showClip p.run (!getBool a "old")
+    let p : Order.ClipClip Int := { a := parseBound (getS a "a"), b := parseBound (getS a "b"), c := parseBound (getS a "c"), d := parseBound (getS a "d"), dtype1 := getS a "dt1" != "0", dtype2 := getS a "dt2" != "0", opsetGe11 := !getBool a "old" }
+    showClip p.run true
   | "cliprelu" :: a =>
-    let p : Order.ReluClip Int := { a := parseBound (getS a "a"), b := parseBound (getS a "b"), dtype1 := getS a "dt1" != "0" }
-    showClip (p.run 0) (!getBool a "old")
+    let p : Order.ReluClip Int := { a := parseBound (getS a "a"), b := parseBound (getS a "b"), dtype1 := getS a "dt1" != "0", opsetGe11 := !getBool a "old" }
+    showClip (p.run 0) true
   | "reluclip" :: a =>
-    let p : Order.ReluClip Int := { a := parseBound (getS a "a"), b := parseBound (getS a "b"), dtype1 := getS a "dt1" != "0" }
-    showClip (p.runReluClip 0) (!getBool a "old")
+    let p : Order.ReluClip Int := { a := parseBound (getS a "a"), b := parseBound (getS a "b"), dtype1 := getS a "dt1" != "0", opsetGe11 := !getBool a "old" }
+    showClip (p.runReluClip 0) true
   | "relurelu" :: _ => "fire hyp=1"
   | "minmax" :: a =>
-    let p : Order.MinMax Int := { kind := parseKind (getS a "kind"), first := parseMMList (getS a "first"), second := parseMMList (getS a "second") }
+    let p : Order.MinMax Int := { kind := parseKind (getS a "kind"), first := parseMMList (getS a "first"), second := parseMMList (getS a "second"), xRank := (getOptInt a "rx").map Int.toNat, opsetGe11 := !getBool a "old" }
     (match p.run with
      | .nofire => "nofire"
      | .raises => "raise"
      | .fire (.sameOp r d) => s!"fire same rank={r} data={showInts d} hyp={b2s (!getBool a "ginit")}"
-     | .fire (.clip lo hi) => s!"fire clip lo={lo} hi={hi} hyp={b2s (!p.d4 (getNat a "rx") && !getBool a "ginit" && !getBool a "old")}")
+     | .fire (.clip lo hi) => s!"fire clip lo={lo} hi={hi} hyp={b2s (!getBool a "ginit")}")
   | "unit" :: a =>
     let op : Unit.Op := match getS a "op" with | "add" => .add | "mul" => .mul | "sub" => .sub | _ => .div
     let origin : Unit.Origin := match getS a "origin" with
@@ -192,7 +192,7 @@ def handle1 (args : List String) : String :=
       | "-" => none
       | "." => some []
       | s => (s.splitOn ";").mapM parseIntList
-    showU (Shape.staticScatterRun (getShape a "data") (getShape a "upd") idx) (getS a "red" == "none" || getS a "red" == "-")
+    showU (Shape.staticScatterRun (getS a "red" == "none" || getS a "red" == "-") (getShape a "data") (getShape a "upd") idx) true
   | "cast" :: a => fireIf (Linalg.noOpCastCheck ((getOptInt a "x").map Int.toNat) (getNat a "to")) true
   | "castcast" :: a =>
     fireIf (Linalg.castCastCheck (getNat a "t2") (getNat a "t3"))
@@ -211,18 +211,17 @@ def handle1 (args : List String) : String :=
      | .fire pads => s!"fire pads={showInts pads} hyp=1")
   | "normpad" :: a =>
     let nats (k : String) : List Nat := ((getOptInts a k).getD []).map Int.toNat
-    let p : Linalg.NormPad := { autoPad := (kv a "ap").bind (fun m => if m == "-" then none else some m), inShape := getShape a "in", outShape := getShape a "out", kernel := nats "k", strides := nats "s", padsAttr := getOptInts a "pads" }
+    let p : Linalg.NormPad := { autoPad := (kv a "ap").bind (fun m => if m == "-" then none else some m), inShape := getShape a "in", outShape := getShape a "out", kernel := nats "k", strides := nats "s", dilations := nats "dil", padsAttr := getOptInts a "pads" }
     (match Linalg.normPadRun p with
      | .nofire => "nofire" | .raises => "raise"
      | .fire r =>
-       let dilOk := (nats "dil").all (· == 1) || getS a "ap" == "VALID"
-       s!"fire pads={match r.pads with | some l => showInts l | none => "-"} hyp={b2s dilOk}")
+       s!"fire pads={match r.pads with | some l => showInts l | none => "-"} hyp=1")
   | "bn" :: a =>
     let flags : List Linalg.InitFlags := ((getS a "flags").splitOn ";").map (fun t =>
       let cs := t.toList
       { isInitializer := cs.getD 0 '0' == '1', hasConst := cs.getD 1 '0' == '1', isGraphInput := cs.getD 2 '0' == '1' })
     let p : Linalg.BatchNorm := { inits := flags, sharedOutside := getBool a "shared", inChannelsModGroup := getNat a "mod", gemmBetaIsOne := getS a "beta1" != "0", trainingMode := getBool a "train" }
-    fireIf (Linalg.batchNormCheck p) (Linalg.batchNormHyp p)
+    fireIf (Linalg.batchNormCheck p) true
   | "expandbin" :: a =>
     (match getOptInts a "e" with
      | some e =>
@@ -233,7 +232,7 @@ def handle1 (args : List String) : String :=
        let yrun := ((getShape a "y").getD []).filterMap Shape.Dim.nat?
        let preluBad := getBool a "prelu1" && Shape.specBroadcast xrun yrun != some xrun
        fireIf (Linalg.expandRemovableConst (getShape a "x") (getShape a "y") e)
-         (getS a "attrs" != "1" && !preluBad)
+         (!preluBad)
      | none => "badline")
   | "mmreshape" :: a =>
     let p : More.MatmulReshape := { a := getShape a "a", b := getShape a "b", shapeC := getOptInts a "c", shapeCRank1 := getS a "c1" != "0" }
@@ -241,7 +240,7 @@ def handle1 (args : List String) : String :=
   | "gemm2mm" :: a =>
     let core : More.MatmulReshape := { a := getShape a "a", b := getShape a "b", shapeC := getOptInts a "c", shapeCRank1 := getS a "c1" != "0" }
     let p : More.GemmToMatmul := { core := core, alphaAttr := parseRat (getS a "alpha"), betaAttr := parseRat (getS a "beta"), transA := getBool a "ta", transB := getBool a "tb" }
-    fireIf (More.gemmToMatmulCheck p) (More.gemmToMatmulHyp p)
+    fireIf (More.gemmToMatmulCheck p) true
   | "hardsig" :: a =>
     let p : More.HardSig := { clipMin := parseRat (getS a "cmin"), clipMax := parseRat (getS a "cmax"), bias := parseRat (getS a "bias"), divisor := parseRat (getS a "div") }
     fireIf p.check p.exact
@@ -250,9 +249,8 @@ def handle1 (args : List String) : String :=
     fireIf (More.ConvAffine.check { wConst := getBool a "w", bConst := getBool a "b", scaleSingleton := getBool a "s", offsetSingleton := getBool a "o", padsZeroAttr := getS a "pads" != "0" }) true
   | "dynscatter" :: a => showU (More.dynScatterRun (getOptInt a "axis") (getShape a "data") (getShape a "t")) true
   | "slicesplit" :: a =>
-    let p : More.SliceSplit := { xShape := getShape a "x", axes0 := getOptInts a "a0", axes1 := getOptInts a "a1", begin0 := getOptInts a "b0", end0 := getOptInts a "e0", begin1 := getOptInts a "b1", end1 := getOptInts a "e1" }
-    let d : Nat := match (getShape a "x").bind List.getLast? with | some (.known n) => n | _ => 0
-    fireIf (More.sliceSplitFires p.check (getBool a "hifirst")) (d % 2 == 0 && getS a "lt18" != "1")
+    let p : More.SliceSplit := { xShape := getShape a "x", axes0 := getOptInts a "a0", axes1 := getOptInts a "a1", begin0 := getOptInts a "b0", end0 := getOptInts a "e0", begin1 := getOptInts a "b1", end1 := getOptInts a "e1", opsetGe18 := getS a "lt18" != "1" }
+    fireIf (More.sliceSplitFires p.check (getBool a "hifirst")) true
   | "ccos" :: a =>
     (match More.castConstantOfShapeRun (getNat a "to") (parseRat (getS a "val")) with
      | .fire t => s!"fire to={t} hyp=1"
